@@ -242,6 +242,10 @@ func (it *Interp) bufDeref(fc *fctx, e ast.Expr) (base string, ok bool) {
 		if id, isID := x.X.(*ast.Ident); isID && fc.bufs[id.Name] {
 			return "", true
 		}
+		// `*w.buf`: the buffer pointer kept in a field of the bound receiver (see attrsBoundMethod)
+		if sel, isSel := x.X.(*ast.SelectorExpr); isSel && fc.bufs[exprString(sel)] {
+			return "", true
+		}
 	case *ast.ParenExpr:
 		return it.bufDeref(fc, x.X)
 	case *ast.SelectorExpr:
@@ -260,6 +264,10 @@ func (it *Interp) bufPass(fc *fctx, e ast.Expr) (base string, ok bool) {
 	switch x := e.(type) {
 	case *ast.Ident:
 		return "", fc.bufs[x.Name]
+	case *ast.SelectorExpr:
+		if fc.bufs[exprString(x)] {
+			return "", true
+		}
 	case *ast.UnaryExpr:
 		if x.Op == token.AND {
 			if sel, isSel := x.X.(*ast.SelectorExpr); isSel && it.cfg.PreField != nil && it.fieldOf(sel) == it.cfg.PreField {
@@ -384,6 +392,39 @@ func (it *Interp) evalCond(fc *fctx, e ast.Expr, st State) []condFork {
 			return fs
 		}
 	case *ast.BinaryExpr:
+		// `X.open > 0` / `!= 0` / `== 0` on the handler's open-group counter: the zero case is the counted loop's
+		// zero-iterations outcome
+		if it.cfg.OpenField != nil {
+			isZero := func(e ast.Expr) bool {
+				tv, ok := it.cfg.Info.Types[e]
+				if !ok || tv.Value == nil {
+					return false
+				}
+				n, exact := constant.Int64Val(constant.ToInt(tv.Value))
+				return exact && n == 0
+			}
+			open, zero, op := x.X, x.Y, x.Op
+			if isZero(x.X) {
+				open, zero = x.Y, x.X
+				switch op {
+				case token.LSS:
+					op = token.GTR
+				case token.GTR:
+					op = token.LSS
+				}
+			}
+			if it.fieldOf(ast.Unparen(open)) == it.cfg.OpenField && isZero(zero) && (op == token.GTR || op == token.NEQ || op == token.EQL) {
+				var out []condFork
+				z := st.clone()
+				z.NZero = true
+				z.G.K = 0
+				out = append(out, condFork{z, op == token.EQL})
+				if !st.NZero {
+					out = append(out, condFork{st, op != token.EQL})
+				}
+				return out
+			}
+		}
 		switch x.Op {
 		case token.LAND:
 			var out []condFork
@@ -1330,6 +1371,152 @@ func (it *Interp) emission(fc *fctx, call *ast.CallExpr, base string, in []State
 	}
 }
 
+// attrsBoundMethod: `r.Attrs(w.write)` where w is a small struct built in this function from a composite literal
+// (`w := attrWriter{buf: buf, addSep: h.addSep}`) and write is its method: the method body is the loop body, the
+// receiver's fields stand for the expressions the literal gave them (a buffer pointer, boolean flags).
+func (it *Interp) attrsBoundMethod(fc *fctx, call *ast.CallExpr, in []State) ([]State, bool) {
+	sel, ok := ast.Unparen(call.Args[0]).(*ast.SelectorExpr)
+	if !ok {
+		return nil, false
+	}
+	s := it.cfg.Info.Selections[sel]
+	if s == nil || s.Kind() != types.MethodVal {
+		return nil, false
+	}
+	m, ok := s.Obj().(*types.Func)
+	if !ok {
+		return nil, false
+	}
+	decl := it.cfg.Decls[m]
+	if decl == nil || decl.Body == nil || decl.Recv == nil || len(decl.Recv.List) != 1 || len(decl.Recv.List[0].Names) != 1 {
+		return nil, false
+	}
+	recv := decl.Recv.List[0].Names[0].Name
+	// the literal the receiver was built from
+	var lit *ast.CompositeLit
+	unwrap := func(e ast.Expr) *ast.CompositeLit {
+		e = ast.Unparen(e)
+		if u, ok := e.(*ast.UnaryExpr); ok && u.Op == token.AND {
+			e = ast.Unparen(u.X)
+		}
+		cl, _ := e.(*ast.CompositeLit)
+		return cl
+	}
+	if lit = unwrap(sel.X); lit == nil {
+		id, ok := ast.Unparen(sel.X).(*ast.Ident)
+		if !ok {
+			return nil, false
+		}
+		obj := it.cfg.Info.Uses[id]
+		var body ast.Node = fc.decl.Body
+		if fc.lit != nil {
+			body = fc.lit.Body
+		}
+		nAssign := 0
+		ast.Inspect(body, func(n ast.Node) bool {
+			as, ok := n.(*ast.AssignStmt)
+			if !ok || len(as.Lhs) != len(as.Rhs) {
+				return true
+			}
+			for i, l := range as.Lhs {
+				if lid, ok := l.(*ast.Ident); ok && (it.cfg.Info.Defs[lid] == obj || it.cfg.Info.Uses[lid] == obj) && obj != nil {
+					nAssign++
+					lit = unwrap(as.Rhs[i])
+				}
+			}
+			return true
+		})
+		if nAssign != 1 || lit == nil {
+			return nil, false
+		}
+	}
+	t := it.cfg.Info.TypeOf(lit)
+	if t == nil {
+		return nil, false
+	}
+	st, ok := t.Underlying().(*types.Struct)
+	if !ok {
+		return nil, false
+	}
+	type fv struct {
+		name string
+		val  ast.Expr
+	}
+	var fields []fv
+	for i, el := range lit.Elts {
+		if kv, ok := el.(*ast.KeyValueExpr); ok {
+			if k, ok := kv.Key.(*ast.Ident); ok {
+				fields = append(fields, fv{k.Name, kv.Value})
+			}
+		} else if i < st.NumFields() {
+			fields = append(fields, fv{st.Field(i).Name(), el})
+		}
+	}
+	sub := &fctx{decl: decl, obj: m, bufs: map[string]bool{}, retBool: true}
+	haveBuf := false
+	for _, f := range fields {
+		if base, ok := it.bufPass(fc, f.val); ok && base == "" {
+			sub.bufs[recv+"."+f.name] = true
+			haveBuf = true
+		}
+	}
+	if !haveBuf {
+		return nil, false
+	}
+	var names []string
+	for _, f := range decl.Type.Params.List {
+		for _, n := range f.Names {
+			names = append(names, n.Name)
+		}
+	}
+	savedFn := it.curFn
+	it.curFn = m.Name()
+	defer func() { it.curFn = savedFn }()
+	seen := map[string]bool{}
+	var exits []State
+	var work []State
+	for _, s0 := range in {
+		n := s0.clone()
+		for _, f := range fields {
+			if t := it.cfg.Info.TypeOf(f.val); t != nil {
+				if b, ok := t.Underlying().(*types.Basic); ok && b.Kind() == types.Bool {
+					key := recv + "." + f.name
+					delete(n.Env, key)
+					if v, known := it.evalBool(fc, f.val, s0); known {
+						n.Env[key] = v
+					}
+				}
+			}
+		}
+		work = append(work, n)
+	}
+	for iter := 0; len(work) > 0 && iter < 64; iter++ {
+		var next []State
+		for _, s0 := range work {
+			st := s0.clone()
+			for _, v := range names {
+				invalidate(&st, v)
+			}
+			if seen[st.key()] {
+				continue
+			}
+			seen[st.key()] = true
+			exits = append(exits, st)
+			r := it.block(sub, decl.Body.List, []State{st})
+			for _, rs := range r.returns {
+				if rs.Ret == 0 {
+					exits = append(exits, rs.St)
+				} else {
+					next = append(next, rs.St)
+				}
+			}
+			next = append(next, r.normal...)
+		}
+		work = dedup(next)
+	}
+	return dedup(exits), true
+}
+
 type callResult struct {
 	St  State
 	Ret int8
@@ -1377,6 +1564,11 @@ func (it *Interp) callStmt(fc *fctx, call *ast.CallExpr, in []State) []State {
 				work = dedup(next)
 			}
 			return dedup(exits)
+		}
+	}
+	if fn != nil && fn.FullName() == "(log/slog.Record).Attrs" && len(call.Args) == 1 {
+		if out, ok := it.attrsBoundMethod(fc, call, in); ok {
+			return out
 		}
 	}
 	if fn != nil && fn.FullName() == "(log/slog.Record).Attrs" && len(call.Args) == 1 {
@@ -1539,7 +1731,7 @@ func (it *Interp) applyCall(fc *fctx, call *ast.CallExpr, fn *types.Func, in []S
 							if t == nil || !(strings.HasSuffix(t.String(), "log/slog.Value") || strings.HasSuffix(t.String(), "log/slog.Attr")) {
 								continue
 							}
-							as := exprString(a)
+							as := strings.TrimPrefix(exprString(a), "&") // the value may be handed on by address
 							for k, v := range st.Env {
 								if strings.HasPrefix(k, "pred:"+as) && strings.Contains(k, "Kind() == ") && strings.HasSuffix(k, "KindGroup") && !v {
 									refuted = true
